@@ -800,6 +800,69 @@ def check_positional_order(ctx, rule, module_names):
     return n
 
 
+def check_pinned_defaults(ctx, rule, module_names):
+    """Shared rule S, second clause: a call that omits an optional argument of a pinned signature keeps meaning what it
+    meant.  For every pinned parameter with a default (bbstatic/signatures_defaults.json, generated from the pinned tree)
+    the parameter still has a default, and it is the same value - as source text, else as a constant (a literal moved
+    into a module constant), else semantically: the function interpreted with the pinned value computes, on every trace
+    partition, what it computes with today's default (a `None` sentinel resolved to the old value inside the body)."""
+    import ast
+    import json
+    import os
+
+    from ..symeval import Env, Interp
+
+    path = os.path.join(os.path.dirname(os.path.dirname(os.path.abspath(__file__))), "signatures_defaults.json")
+    if not os.path.exists(path):
+        raise AnalysisError("signatures_defaults.json missing")
+    pinned = json.load(open(path))
+    it = Interp(ctx.P, policy=std_policy(False))
+
+    def const(expr, module):
+        from ..options import _const_val
+
+        return _const_val(it, expr, module)
+
+    for mn in module_names:
+        m = ctx.P.modules.get(mn)
+        if m is None:
+            continue
+        changed = []
+        for q, dflt in pinned.items():
+            fi = ctx.P.functions.get(q)
+            if fi is None or fi.module.name != mn:
+                continue
+            cur = fi.defaults()
+            for par, text in dflt.items():
+                if par not in fi.params + fi.kwonly:
+                    continue  # removed / renamed parameters are the business of the rules that bind arguments
+                short = q.split(".", 2)[-1] if q.count(".") > 2 else q
+                if par not in cur:
+                    changed.append(f"{short}: `{par}` lost its default {text}")
+                    continue
+                if ast.unparse(cur[par]) == text:
+                    continue
+                from ..options import _same
+
+                old_expr = ast.parse(text, mode="eval").body
+                a, b = const(old_expr, fi.module), const(cur[par], fi.module)
+                if a is not None and b is not None and _same(a, b):
+                    continue
+                try:
+                    va = a if a is not None else it.eval(old_expr, Env(None, fi.module, None))
+                    vb = b if b is not None else it.eval(cur[par], Env(None, fi.module, None))
+                    same = it.equal_calls(fi, {par: va}, {par: vb})
+                except AnalysisError:
+                    same = False
+                if not same:
+                    changed.append(f"{short}: default of `{par}` is {ast.unparse(cur[par])[:40]}, was {text[:40]}")
+        ctx.check(
+            not changed, rule, f"{mn}:defaults of the pinned parameters", m.relpath,
+            "a call that omits an optional argument of a pinned signature computes what it computed: the default is the same value (or one with which the function computes the same on every path)",
+            signature="default changed " + "; ".join(sorted(changed))[:160], changed=sorted(changed)[:8],
+        )
+
+
 def check_super_forwarding(ctx, rule, module_names):
     """An override that delegates to the method it overrides forwards what it accepts: every parameter the override shares
     with the overridden method is handed on in the `super().method(...)` call (by position, by keyword, or through
